@@ -242,7 +242,7 @@ def hermes_state(ctx, rule):
     ctx.check([l for _, l in sorted(order)] == ["column", "name", "line"], rule, fn, "order", "the segment's values are consumed in the order column, name index, line (Metro's format)", detail=str(sorted(order)))
     # every non-empty, parsable segment yields one offset
     pushes = [bi for bi, t in q.calls_to(b, "Vec::<T, A>::push") if q.shape(q.arg_expr(b, t, 1), roles).startswith("HermesScopeOffset{")]
-    empt = [d for d in range(len(b.blocks)) if b.blocks[d]["term"]["k"] == "switch" and d in inner and q.shape(b.expr_of_operand(b.blocks[d]["term"]["discr"])) == "str::is_empty(some(Iterator::next(var:Split<char>)))"]
+    empt = [d for d in range(len(b.blocks)) if b.blocks[d]["term"]["k"] == "switch" and d in inner and q.shape(b.expr_of_operand(b.blocks[d]["term"]["discr"])) == "str::is_empty(try(Iterator::next(var:Split<char>)))"]
     if ctx.check(len(pushes) == 1 and len(empt) == 1, rule, fn, "push+empty-test", "one push per segment, empty segments tested once"):
         nonempty = [tb for v, tb in b.blocks[empt[0]]["term"]["arms"] if v == 0]
         ctx.check(bool(nonempty) and loop_passes(b, nonempty[0], inner_h, pushes), rule, fn, "segment:no-skip", "every non-empty segment that parses contributes an offset (no segment is dropped)")
@@ -252,7 +252,7 @@ def hermes_state(ctx, rule):
     its = [sh for l in sorted(b.var_names) for sh, _, _ in q.def_shapes(b, l, roles) if sh == "Iterator::copied(slice::iter(^var:Vec<i64>))"]
     ctx.check(len(its) == 1, rule, fn, "nums-iter", "the values are read in order from the parsed segment")
     parse = [q.shape(b.expr_of_call(t)) for bi, t in b.calls() if q.nice(t.get("callee")) == "Result::ok"]
-    ctx.check(parse == ["Result::ok(vlq::parse_vlq_segment_into(some(Iterator::next(var:Split<char>)),^var:Vec<i64>))"], rule, fn, "parse-error->None",
+    ctx.check(parse == ["Result::ok(vlq::parse_vlq_segment_into(try(Iterator::next(var:Split<char>)),^var:Vec<i64>))"], rule, fn, "parse-error->None",
               "a segment that fails to parse disables scope lookup for this source only (.ok()? inside the per-source closure)", detail=str(parse))
     lit = [q.shape(b.expr_of_rvalue(s["rv"]), roles) for bi, si, s, it in b.locations() if not it and s["k"] == "assign" and s["rv"]["k"] == "agg" and s["rv"].get("adt") == "hermes::HermesFunctionMap"]
     ENTRY = "try(Iterator::next(slice::iter(try(Option::as_ref(arg2)))))"
